@@ -46,8 +46,8 @@ func c18StubUpdate(_ *shard, docs index.Documents) error {
 
 //verif:harness prop=C18 tier=quick,thorough reach=repaired native=off paths=400000 redirect=inverted.BuildPropertyQuery:c18StubBuildQuery,shard.search:c18StubSearch,shard.buildUpdateDocument:c18StubBuildUpdate,shard.buildDeleteFromTimeDocuments:c18StubBuildDelete,shard.updateDocuments:c18StubUpdate
 // Replica repair is last-writer-wins: a revision pushed by a peer is accepted exactly when it is
-// newer than the NEWEST revision the shard holds for that key (or equally new with a different
-// deletion state); a stale revision - older than the newest local one, however many older ones
+// newer than the NEWEST revision the shard holds for that key (or it is the tombstone of that very
+// revision while the shard still holds it live); a stale revision - older than the newest local one, however many older ones
 // the shard also holds and in whatever order the index returns them - changes nothing and the
 // shard answers with its newest revision; when accepted, every live local revision is tombstoned
 // and the pushed one is written, in one update.
@@ -82,7 +82,10 @@ func VerifH_C18_RepairIsLastWriterWins() {
 	updated, selfNewer, err := s.repair(context.Background(), []byte("new"), p, del)
 	zzverif.Reach("repaired")
 	zzverif.Assert(err == nil, "repair succeeds")
-	accept := newest == nil || rev > newest.timestamp || (rev == newest.timestamp && del != newest.deleteTime)
+	// at equal revisions only a tombstone may replace a live copy (a delete keeps the revision of the
+	// value it removes); a live copy never replaces the tombstone of its own revision, otherwise two
+	// replicas holding tombstone and live copy would swap states on every exchange and never converge
+	accept := newest == nil || rev > newest.timestamp || (rev == newest.timestamp && newest.deleteTime <= 0 && del > 0)
 	zzverif.Assert(updated == accept, "a pushed revision is accepted exactly when it is newer than the newest local revision")
 	if !accept {
 		zzverif.Assert(c18Updates == 0 && len(c18Tombstone) == 0, "a stale revision changes nothing")
